@@ -125,6 +125,8 @@ class Worker:
                 h.probe(cmd[1], bool(cmd[2]))
             elif cmd[0] == "xq":  # a REAL query function of the library (first, uncached call)
                 h.xres[str(self.tid)] = repr(XQ[cmd[1]]())
+            elif cmd[0] == "xs":  # urwid's event loop: the started screen's input reader
+                h.xres[str(self.tid)] = bytes(h.screen.get_available_raw_input()).hex()
             elif cmd[0] == "xr":  # a synchronized reader that does not flush first
                 r = U.read_tty_all()
                 h.xres[str(self.tid)] = None if r is None else r.hex()
@@ -237,6 +239,7 @@ class ScriptedTerminal:
         self.replies, self.da1 = x_replies()
         self.request = bytearray()
         self.pending = 0
+        self.fds = {self.slave}  # descriptors of the terminal (the slave and its duplicates)
 
     def inq(self):
         import fcntl
@@ -295,15 +298,18 @@ class OSProxy:
 
     def write(self, fd, data):
         n = os.write(fd, data)
-        if fd == self._t.slave:
-            self._h.ev(self._h.me(), 11, self._t.wrote(bytes(data)))
+        if fd in self._t.fds:
+            k = self._t.wrote(bytes(data))
+            if threading.get_ident() in self._h.by_ident:
+                self._h.ev(self._h.me(), 11, k)
         return n
 
     def read(self, fd, n):
         data = os.read(fd, n)
-        if fd == self._t.slave and data:
+        if fd in self._t.fds and data:
             self._t.pending -= len(data)
-            self._h.ev(self._h.me(), 12, len(data))
+            if threading.get_ident() in self._h.by_ident:
+                self._h.ev(self._h.me(), 12, len(data))
         return data
 
 
@@ -324,6 +330,7 @@ class TermiosProxy:
 
 
 XQ = {
+    "query": lambda: U.query_terminal(x_replies()[1], more=lambda s: not s.endswith(b"c")),
     "name_version": lambda: U.get_terminal_name_version(),
     "fg_bg": lambda: U.get_fg_bg_colors(),
     "cell_size": lambda: tuple(U.get_cell_size() or ()),
@@ -355,7 +362,8 @@ def run_schedule(case):
     U._cell_size_lock = threading.RLock()
     made = []
     term = None
-    if any(cmd[0] in ("xq", "xr") for _, _, prog in case["threads"] for cmd in prog):
+    screen = screen_in = None
+    if any(cmd[0] in ("xq", "xr", "xs") for _, _, prog in case["threads"] for cmd in prog):
         import termios as real_termios
 
         term = ScriptedTerminal(h)
@@ -364,6 +372,25 @@ def run_schedule(case):
         U.os, U.termios = OSProxy(h, term), TermiosProxy(h, term)
         U.get_terminal_name_version._invalidate_cache()
         U.get_fg_bg_colors._invalidate_cache()
+        if any(cmd[0] == "xs" for _, _, prog in case["threads"] for cmd in prog):
+            # a STARTED UrwidImageScreen whose input is that same terminal (output to a buffer);
+            # urwid reads through its own `os`: same logging proxy
+            import io
+
+            import urwid.display._posix_raw_display as UP
+            from term_image.image import KittyImage
+            from term_image.widget import UrwidImageScreen
+
+            KittyImage._supported = False  # no support query of its own when the screen starts / stops
+            screen_in = os.fdopen(os.dup(term.slave), "rb", buffering=0)
+            term.fds.add(screen_in.fileno())
+            screen = h.screen = UrwidImageScreen(screen_in, io.StringIO())
+            traced, U._tty_lock = U._tty_lock, threading.RLock()  # started by the scheduler's own thread,
+            try:                                                  # before any worker runs: not a scheduled step
+                screen.start()
+            finally:
+                U._tty_lock = traced
+            UP.os = OSProxy(h, term)
 
     def factory():
         w = h.me()
@@ -490,6 +517,13 @@ def run_schedule(case):
     leftover = None
     if term is not None:
         leftover = term.inq()
+        if screen is not None:
+            UP.os = os
+            U._tty_lock = threading.RLock()
+            try:
+                screen.stop()
+            finally:
+                screen_in.close()
         U.os, U.termios, U._tty_fd = os, real_termios, -1
         term.close()
     return {"log": h.log, "sched": effective, "unfinished": unfinished, "error": h.error,
